@@ -969,14 +969,18 @@ def ws_validate(ctx, events, label, per_case=False):
 
 
 def c11(ctx):
-    ctx.rule = ("cases = seeded random histories of client batches (1,2,3,12,15 messages), backend bursts (1,2,11,25 messages) and polls over text (quotes, escapes, "
+    ctx.rule = ("cases = seeded random histories of client batches (1,2,3,12,15 messages), backend bursts (1,2,11,25 messages) and polls over text (21 character classes exported by TLC - quotes, escapes, U+FFFD, BOM, NUL, U+2028, U+10FFFF ... - "
+                "every class in both directions in every run; "
                 "astral characters), binary (arbitrary bytes), JSON with/without resource.headers (number classes incl. integers > 2^53), sizes 0..5000 B "
                 "(1 MB in thorough), protocol version 1, one third with header injection enabled; distinct = distinct batch/burst/poll shapes")
     ctx.assumptions = ["one data post and one poll outstanding at a time, as the injected browser shim does", "payload equality is decided by the harness (bytes; JSON values with "
                        "numbers as decimal strings for injected messages) and reported per message"]
     ws_model(ctx)
     go_build_harness(ctx)
-    events, _ = drive(ctx, "wsmsg", timeout=3000)
+    wc = ws_cases(ctx)
+    wpath = os.path.join(ctx.scratch, "ws_cases.json")
+    json.dump({"seqs": [], "urls": [], "textclasses": wc.get("textclasses", [])}, open(wpath, "w"))
+    events, _ = drive(ctx, "wsmsg", cases=wpath, timeout=3000)
     segs, fails = ws_validate(ctx, events, "message history")
     good = [s for s in segs if not any(s is f[0] for f in fails) and sum(1 for e in s if e.get("ev") == "BackendRecv") >= 3]
     if good:
@@ -1056,14 +1060,16 @@ def c12(ctx):
 
 
 def c13(ctx):
-    ctx.rule = ("cases = 20 URL syntax classes enumerated by TLC (absolute with foreign host in 4 schemes, scheme-relative, path-only, opaque, empty, userinfo, IPv6, odd/"
+    ctx.rule = ("cases = 144 reserved-character classes (one of @ : / ? # [ %40 %2F inside path / query / fragment x empty / non-empty path x absolute / scheme-relative / "
+                "relative reference) and 20 URL syntax classes enumerated by TLC (absolute with foreign host in 4 schemes, scheme-relative, path-only, opaque, empty, userinfo, IPv6, odd/"
                 "empty port, fragment, parse errors, raw bytes, dot segments, encoded path ...) x 5 (quick) / 200 (thorough) concrete instances each as the body of a "
                 "shim open request, with a recording dialer installed in gorilla's DefaultDialer; plus requests outside the shim prefix; distinct = URL classes")
     ctx.assumptions = ["the recording dialer refuses to connect to anything but the backend, so a foreign dial shows up as an address in the record, not as traffic"]
     ws_model(ctx)
     cases = ws_cases(ctx)
     cpath = os.path.join(ctx.scratch, "ws_cases.json")
-    json.dump({"seqs": [], "urls": cases["urls"]}, open(cpath, "w"))
+    json.dump({"seqs": [], "urls": cases["urls"], "reserved": cases.get("reserved", [])}, open(cpath, "w"))
+    ctx.extra["reserved_character_classes"] = len(cases.get("reserved", []))
     go_build_harness(ctx)
     events, _ = drive(ctx, "wsurls", cases=cpath, timeout=3000)
     segs, fails = ws_validate(ctx, events, "open request", per_case=True)
